@@ -166,6 +166,15 @@ def mkStrand (w : World) (c : Nat) (seq : Option (List (Option Nat))) (name : Op
   let (ss, out) := withClass w.strands c (fun r => strandRequest (effPrefix w.strands 5 c) r w.nextId names name)
   (({ w with strands := ss }).settle out .strand c ((seq.getD []).filterMap id), out)
 
+/-- `StrandS(sequence, name, prefix = pfx)`: an explicit prefix replaces the class prefix in the automatic name -/
+def mkStrandP (w : World) (c : Nat) (seq : Option (List (Option Nat))) (name pfx : Option String) : World × Out :=
+  let names := seq.map (fun s => (w.seqNames s).getD [])
+  let (ss, out) := withClass w.strands c (fun r => strandRequest (pfx.getD (effPrefix w.strands 5 c)) r w.nextId names name)
+  (({ w with strands := ss }).settle out .strand c ((seq.getD []).filterMap id), out)
+
+theorem mkStrandP_none (w : World) (c : Nat) (seq : Option (List (Option Nat))) (name : Option String) :
+    w.mkStrandP c seq name none = w.mkStrand c seq name := rfl
+
 def mkMacro (w : World) (c : Nat) (members : Option (List Nat)) (name : Option String) : World × Out :=
   let ms := members.map (fun l => l.filterMap (fun id => (w.cplxObj id).map (fun p => (p.2.name, p.2.canon))))
   let (ss, out) := withClass w.macros c (fun r => macroRequest r w.nextId ms name)
